@@ -24,6 +24,14 @@ theorem dop853_dense_order7 : ∀ t : BTree, t.order ≤ 7 → dop853Dense.condT
   forall_of_all (p := 7) (by decide +kernel)
 
 /-! sharpness (the checker is not vacuous) -/
+/-- the time arguments `x + C14 h`, `x + C15 h`, `x + C16 h` of DOP853's three extra dense stages are the nodes the order
+    conditions assume (the row sums of the stages' `A` rows), to 1e-15: without this the interpolant of a non-autonomous problem
+    loses its order strictly inside a step while both step ends stay exact -/
+theorem c07_dop853_dense_nodes : dop853ExtraNodesOK (10 ^ 15) = true := by decide +kernel
+/-- the check is not vacuous: a node off by 5e-3 fails it -/
+theorem c07_dop853_dense_nodes_sharp :
+    nodesMatchRows (dop853Dense.A.drop 15) [(7727777777777778, 10000000000000000)] (10 ^ 15) = false := by decide +kernel
+
 theorem rk4_dense_not_order4 : ∃ t : BTree, t.order = 4 ∧ rk4Dense.condTree t = false :=
   ⟨.graft (.graft (.graft .leaf .leaf) .leaf) .leaf, by decide +kernel⟩
 theorem rk23_dense_not_order4 : ∃ t : BTree, t.order = 4 ∧ rk23Dense.condTree t = false :=
